@@ -49,6 +49,7 @@ type tgRun struct {
 	got    [][2]uint64
 	done   chan struct{}
 	paused int32 // the reader does not touch the channel while set
+	acked  int32 // the reader has seen the pause and is outside its receive
 }
 
 func (r *tgRun) count() int {
@@ -58,7 +59,7 @@ func (r *tgRun) count() int {
 }
 
 // runTriggerSeq drives one fresh trigger; returns what the reader received and whether a wait for an expected trigger timed out
-func runTriggerSeq(ops []tgOp, base time.Duration) (got [][2]uint64, expected [][2]uint64, parked int) {
+func runTriggerSeq(ops []tgOp, base time.Duration) (got [][2]uint64, expected [][2]uint64, parked int, tightOut bool) {
 	tr := Electiontrigger.NewTimerBasedElectionTrigger(base, nil)
 	run := &tgRun{done: make(chan struct{})}
 	stopReader := make(chan struct{})
@@ -66,6 +67,7 @@ func runTriggerSeq(ops []tgOp, base time.Duration) (got [][2]uint64, expected []
 		defer close(run.done)
 		for {
 			if atomic.LoadInt32(&run.paused) == 1 {
+				atomic.StoreInt32(&run.acked, 1)
 				select {
 				case <-stopReader:
 					return
@@ -73,6 +75,7 @@ func runTriggerSeq(ops []tgOp, base time.Duration) (got [][2]uint64, expected []
 				}
 				continue
 			}
+			atomic.StoreInt32(&run.acked, 0)
 			select {
 			case <-time.After(200 * time.Microsecond): // come back to look at the pause flag
 			case t := <-tr.ElectionChannel():
@@ -90,25 +93,40 @@ func runTriggerSeq(ops []tgOp, base time.Duration) (got [][2]uint64, expected []
 	var ph, pv uint64
 	pending := false // an instance that has not fired yet and was not stopped
 	parkedLive := false // an instance that fired while nobody was reading and has not been cancelled since
-	maxTimeout := base << 2
+	maxTimeout := base << 1
+	var armedAt time.Time
+	var armedTimeout time.Duration
+	tight := false // an "immediate" operation ran too close to the expiry of what was armed: the outcome is a race, not a verdict
+	margin := func() {
+		if pending && time.Since(armedAt) > armedTimeout/2 {
+			tight = true
+		}
+	}
 	for _, o := range ops {
 		switch o.kind {
 		case "reg":
+			margin()
 			tr.RegisterOnElection(primitives.BlockHeight(o.h), primitives.View(o.v), cb)
 			if !(handler && ph == o.h && pv == o.v) {
 				handler, ph, pv, pending, parkedLive = true, o.h, o.v, true, false
+				armedAt, armedTimeout = time.Now(), base<<o.v
 			}
 		case "stop":
+			margin()
 			tr.Stop()
 			handler, pending, parkedLive = false, false, false
 		case "fire": // time passes while nobody reads the channel
 			atomic.StoreInt32(&run.paused, 1)
-			time.Sleep(time.Millisecond)
+			for t := 0; atomic.LoadInt32(&run.acked) == 0 && t < 2000; t++ {
+				time.Sleep(50 * time.Microsecond)
+			}
+			margin() // the reader left its receive only now: that must be well before the expiry
 			time.Sleep(2*maxTimeout + 5*time.Millisecond)
 			if pending {
 				pending, parkedLive = false, true
 			}
 		case "resume":
+			margin()
 			atomic.StoreInt32(&run.paused, 0)
 			if parkedLive {
 				expected = append(expected, [2]uint64{ph, pv})
@@ -117,8 +135,8 @@ func runTriggerSeq(ops []tgOp, base time.Duration) (got [][2]uint64, expected []
 				for run.count() < len(expected) && time.Now().Before(deadline) {
 					time.Sleep(time.Millisecond)
 				}
+				time.Sleep(2 * time.Millisecond)
 			}
-			time.Sleep(3 * time.Millisecond)
 		case "settle":
 			if pending {
 				expected = append(expected, [2]uint64{ph, pv})
@@ -146,7 +164,7 @@ func runTriggerSeq(ops []tgOp, base time.Duration) (got [][2]uint64, expected []
 		}
 		time.Sleep(2 * time.Millisecond)
 	}
-	return run.got, expected, parked
+	return run.got, expected, parked, tight
 }
 
 func runTrigger(cfg *runCfg) error {
@@ -159,8 +177,8 @@ func runTrigger(cfg *runCfg) error {
 	if cfg.n > 0 {
 		n = cfg.n
 	}
-	base := 4 * time.Millisecond
-	pairs := [][2]uint64{{1, 0}, {1, 1}, {2, 0}, {1, 2}}
+	base := 20 * time.Millisecond // far above the latency of the operations that are meant to be immediate
+	pairs := [][2]uint64{{1, 0}, {1, 1}, {2, 0}, {2, 1}}
 	var cases []string
 	for i := 0; i < n; i++ {
 		var ops []tgOp
@@ -199,10 +217,16 @@ func runTrigger(cfg *runCfg) error {
 		var parked int
 		for attempt := 0; ; attempt++ {
 			sw := startStallWatch()
-			got, exp, parked = runTriggerSeq(ops, base)
-			if sw.finish() && attempt < 3 {
-				rep.count("trigger:sequence-repeated-after-machine-stall")
+			var tight bool
+			got, exp, parked, tight = runTriggerSeq(ops, base)
+			stalled := sw.finish()
+			if (stalled || tight) && attempt < 3 {
+				rep.count("trigger:sequence-repeated-after-machine-stall-or-tight-timing")
 				continue
+			}
+			if stalled || tight {
+				rep.count("trigger:sequence-inconclusive")
+				got, parked = exp, 0 // not judged
 			}
 			break
 		}
